@@ -1411,7 +1411,7 @@ fn numeric_text(r: &mut Rng, out: &mut Out) -> String {
 
 const SECTIONS: [Sec; 6] = [Sec::General, Sec::Editor, Sec::Metadata, Sec::Difficulty, Sec::Events, Sec::Colors];
 
-pub const RULE: &str = "sequences of section lines run through the public parse_general/parse_editor/parse_metadata/parse_difficulty/parse_events/parse_colors on a fresh state: (a) matrix: every recognised key x value class table (valid, boundary +-2147483647/8, overflow incl. 400 digits and 1e999999, NaN/inf, empty, forms such as +7 -0 1e5 .5 5. 0x10) x 16 decorations (plain, padded with space/tab/U+00A0/U+3000/mixed Unicode white space, comment-suffixed, three extra-colon shapes, white space around the key, indented line), each alone and after a valid record of the same key; (b) event lines (all types, quoted/backslashed/non-ASCII file names, video and image extensions in both cases, short names, break boundary numerics) and colour lines (combo/named/other keys x 3/4/5-component values); (b') numeric stress: decimal texts of exact ties between neighbouring f32/f64 values and one digit above/below them, exact expansions, subnormals, shortest / scientific / over-long renderings, random digit strings with exponents, integers around +-2^31, through an f64, an f32 and an i32 field and break times; (c) random sequences of 1-10 lines, mostly valid, with duplicates, unknown keys, case variants, missing colons, blank and comment lines. non-trivial = the final state differs from the default or at least one line was rejected; distinct = distinct case lines";
+pub const RULE: &str = "sequences of section lines run through the public parse_general/parse_editor/parse_metadata/parse_difficulty/parse_events/parse_colors on a fresh state: (a) matrix: every recognised key x value class table (valid, boundary +-2147483647/8, overflow incl. 400 digits and 1e999999, NaN/inf, empty, forms such as +7 -0 1e5 .5 5. 0x10) x 16 decorations (plain, padded with space/tab/U+00A0/U+3000/mixed Unicode white space, comment-suffixed, three extra-colon shapes, white space around the key, indented line), each alone and after a valid record of the same key; (b) event lines (all types, quoted/backslashed/non-ASCII file names, video and image extensions in both cases, short names, break boundary numerics) and colour lines (combo/named/other keys x 3/4/5-component values); (b') numeric stress: decimal texts of exact ties between neighbouring f32/f64 values and one digit above/below them, exact expansions, subnormals, shortest / scientific / over-long renderings, random digit strings with exponents, integers around +-2^31, through an f64, an f32 and an i32 field and break times; (b'') sweep over code points (quick: Latin-1 and the Unicode space blocks; thorough: every BMP scalar value and every 257th astral one) placed around key and value; (c) random sequences of 1-10 lines, mostly valid, with duplicates, unknown keys, case variants, missing colons, blank and comment lines. non-trivial = the final state differs from the default or at least one line was rejected; distinct = distinct case lines";
 
 pub fn generate(tier: &str, seed: u64, out: &mut Out) {
     let thorough = tier == "thorough";
@@ -1509,6 +1509,29 @@ pub fn generate(tier: &str, seed: u64, out: &mut Out) {
         let text = if r.chance(1, 6) { format!("+{n}") } else if r.chance(1, 6) { format!("{:03}", n) } else { format!("{n}") };
         run_case(Sec::General, &[format!("PreviewTime:{text}"), format!("AudioLeadIn: {text} ")], "numeric.int", out, &mut known);
         run_case(Sec::Colors, &[format!("Combo1:{text},{},{}", n.rem_euclid(300), n.rem_euclid(256))], "numeric.int", out, &mut known);
+    }
+
+    // (b'') which characters are trimmed around a key and a value: sweep over code points
+    {
+        let mut cps: Vec<u32> = vec![];
+        if thorough {
+            cps.extend(0..=0xFFFFu32);
+            cps.extend((0x10000..=0x10FFFFu32).step_by(257));
+        } else {
+            cps.extend(0..=0xFFu32);
+            cps.extend(0x1670..=0x1690u32);
+            cps.extend(0x2000..=0x2070u32);
+            cps.extend(0x2FF0..=0x3010u32);
+            cps.extend([0x180E, 0xFEFF, 0xE000, 0xFFFD, 0x10000, 0x10FFFF]);
+        }
+        for cp in cps {
+            let Some(c) = char::from_u32(cp) else { continue };
+            if c == ':' {
+                continue; // covered by the extra-colon shapes
+            }
+            out.count(if c.is_whitespace() { "trim_sweep.white_space" } else { "trim_sweep.other" });
+            run_case(Sec::Metadata, &[format!("{c}BeatmapID{c}:{c}7{c}"), format!("Title:{c}t{c}")], "trim_sweep", out, &mut known);
+        }
     }
 
     // (c) random sequences
